@@ -387,10 +387,30 @@ def rule_wnaf_table(fx, rep):
             bad.append('w=%d: not derivable: %s' % (w, e))
             continue
         rep.sites(I.call_sites)
-        out = res[0][2].get(1) if len(res) == 1 else None
-        ok = isinstance(out, Agg) and len(out.items) == (1 << (w - 1)) and all(isinstance(x, Lin) and x.t == {'P': 2 * i + 1} for i, x in enumerate(out.items))
-        if not ok:
-            bad.append('w=%d: table is %r' % (w, out.items[:4] if isinstance(out, Agg) else out))
+        # every path: the general one yields exactly the odd multiples; a path taken only for the identity (an is_zero
+        # test of the base answered true) may hold any multiples of the base, [k]O = O, in a table of the same length
+        import tt
+        kz = ('is_zero', tt.lin_key(Lin.atom('P')))
+        ngen = 0
+        for pth_, ret_, outs_ in res:
+            if isinstance(ret_, tuple) and ret_ and ret_[0] == 'diverges':
+                bad.append('w=%d: a path panics' % w)
+                continue
+            out = outs_.get(1)
+            lits = tt.path_literals(pth_)
+            if [l for l in lits if l[0] != kz]:
+                bad.append('w=%d: the table depends on %r' % (w, [l[2] for l in lits if l[0] != kz][0]))
+                continue
+            ident = any(l[0] == kz and l[1] for l in lits)
+            if ident:
+                ok = isinstance(out, Agg) and len(out.items) == (1 << (w - 1)) and all(isinstance(x, Lin) and set(x.t) <= {'P'} for x in out.items)
+            else:
+                ngen += 1
+                ok = isinstance(out, Agg) and len(out.items) == (1 << (w - 1)) and all(isinstance(x, Lin) and x.t == {'P': 2 * i + 1} for i, x in enumerate(out.items))
+            if not ok:
+                bad.append('w=%d: table is %r%s' % (w, out.items[:4] if isinstance(out, Agg) else out, ' for the identity' if ident else ''))
+        if not ngen:
+            bad.append('w=%d: no path handles a non-identity base' % w)
     rep.check(not bad, 'BITLIN', 'wnaf_table:odd-multiples', 'for w = 2..8 and any previous buffer contents: table = [(2i+1) P for i < 2^(w-1)]', '; '.join(bad[:3]), fx.fn(p)['span'], construct=p)
 
 
